@@ -121,8 +121,14 @@ def min_width(poly):
     return best
 
 
+def _ccw(poly):
+    a = sum(poly[i][0] * poly[(i + 1) % len(poly)][1] - poly[(i + 1) % len(poly)][0] * poly[i][1] for i in range(len(poly)))
+    return [list(p) for p in (poly if a > 0 else poly[::-1])]
+
+
 def inside_convex(poly, pts, slack=1e-6):
-    """True where pts lie inside or on the counter-clockwise convex polygon (distance slack in metres)"""
+    """True where pts lie inside or on the convex polygon of either orientation (distance slack in metres)"""
+    poly = _ccw(poly)
     pts = np.asarray(pts, dtype=float).reshape(-1, 2)
     ok = np.ones(len(pts), dtype=bool)
     n = len(poly)
@@ -138,6 +144,7 @@ def inside_convex(poly, pts, slack=1e-6):
 
 
 def strictly_inside_convex(poly, pts, margin=1e-6):
+    poly = _ccw(poly)
     pts = np.asarray(pts, dtype=float).reshape(-1, 2)
     ok = np.ones(len(pts), dtype=bool)
     n = len(poly)
@@ -160,7 +167,8 @@ def nn_min(pts):
 
 def lot_coords(case):
     s, off = case["scale"], case["offset"]
-    return [[s * x + off, s * y + off] for x, y in case["poly"]]
+    lot = [[s * x + off, s * y + off] for x, y in case["poly"]]
+    return lot[::-1] if case.get("cw") else lot  # the lattice polygons are counter-clockwise; cw = the same outline listed clockwise
 
 
 def gen_once(lot, spacing, rot_deg, nogo=None):
@@ -368,11 +376,6 @@ def run_opt(case, res):
     res["nontrivial"] += 1
 
 
-def _ccw(poly):
-    a = sum(poly[i][0] * poly[(i + 1) % len(poly)][1] - poly[(i + 1) % len(poly)][0] * poly[i][1] for i in range(len(poly)))
-    return [list(p) for p in (poly if a > 0 else poly[::-1])]
-
-
 def zone_shape(kind, rho, s):
     if kind == "quad":
         return [(-rho, -0.8 * rho), (rho, -rho), (1.1 * rho, 0.9 * rho), (-0.9 * rho, rho)]
@@ -434,6 +437,9 @@ NOGO_LOTS = {
     "rect_axes": [[0.0, 0.0], [120.0, 0.0], [120.0, 90.0], [0.0, 90.0]],
     "hexagon": [[10.0, 0.0], [100.0, 5.0], [130.0, 50.0], [105.0, 100.0], [25.0, 105.0], [0.0, 55.0]],
 }
+
+
+NOGO_LOTS["hexagon_cw"] = NOGO_LOTS["hexagon"][::-1]
 
 
 def gen_multi(lot, spacing, rot_deg, zones, perimeter):
@@ -563,6 +569,9 @@ def run_case(case):
                             c = {"kind": "single", "poly": [list(p) for p in poly], "scale": scale, "offset": off, "spacing": s, "rots": case["rots"],
                                  "translate": case.get("translate"), "as_int": case.get("as_int", False)}
                             run_single(c, res)
+                            if case.get("cw_too") and off == case["offsets"][-1]:
+                                run_single(dict(c, cw=True, translate=None, as_int=False), res)
+                                res.outcome("clockwise_outline")
                             if res["sample"] is None:
                                 res["sample"] = c
     else:
@@ -584,7 +593,7 @@ def main(run: core.Run, only=None):
     for i in range(0, len(idx), step):
         chunks.append({"kind": "chunk", "polys": idx[i:i + step], "variants": ["hull"] if quick else ["hull", "edge"], "scales": [20.0] if quick else [20.0, 33.3],
                        "offsets": [0.0, 7.5] if not (i % (2 * step) == 0) else [0.0, 7.5, 3.0], "spacings": [7.3] if quick else [5.3, 7.3, 10.0, 11.9, 17.0, 23.0], "rots": ROTS if not quick else [-90.0, -45.0, 0.0, 30.0, 75.0],
-                       "translate": [0.0, 30.0] if i % (4 * step) == 0 else None, "as_int": i % (2 * step) == 0})
+                       "translate": [0.0, 30.0] if i % (4 * step) == 0 else None, "as_int": i % (2 * step) == 0, "cw_too": (i // step) % (3 if quick else 2) == 1})
     run.drive(chunks, family="single-rotation")
     rects = []
     for W in (20.0, 25.0, 33.3, 40.0, 47.0, 60.0, 65.0, 80.5):
@@ -647,8 +656,8 @@ def main(run: core.Run, only=None):
              "call under a CPU-time horizon; non-trivial = rotated rows, or a lot touching the axes, rectangles, optimiser runs",
         bounds={"convex_lattice_polygons": npoly, "stride": stride, "scales_m": [20.0] if quick else [20.0, 33.3], "offsets_m": [0.0, 7.5],
                 "single_rotations_deg": ROTS, "cpu_horizon_s": HORIZON_S},
-        assumptions=["outlines are given counter-clockwise (the input format asks for it)", "lots narrower than two spacings are skipped and counted",
+        assumptions=["outlines are listed counter-clockwise, and every second / third chunk of lots also clockwise", "lots narrower than two spacings are skipped and counted",
                      "rotations within 1e-9 degree of the end of a window may or may not be tried (float accumulation in the sweep)",
                      "spacing is asserted only without perimeter spacing and without no-go zones, as the property states"],
-        require_outcomes=("generated", "rectangle", "optimised", "nogo_generated", "far_generated"),
+        require_outcomes=("generated", "rectangle", "optimised", "nogo_generated", "far_generated", "clockwise_outline"),
     )
